@@ -27,6 +27,7 @@ TYPES = {
     "Titel": "m",         # definition of Text
     "Ort": "m",           # definition of Punkt
     "Nummer Liste": "f",
+    "Reihe": "f",         # definition of Zahlen Liste
 }
 ART = {"m": "Der", "f": "Die", "n": "Das"}
 DAT = {"m": "einem", "f": "einer", "n": "einem"}
@@ -47,6 +48,7 @@ Wir nennen einen Text auch ein Wort.
 Wir definieren eine Hausnummer als eine Zahl.
 Wir definieren einen Titel als einen Text.
 Wir definieren einen Ort als einen Punkt.
+Wir definieren eine Reihe als eine Zahlen Liste.
 Die generische Funktion nimm mit dem Parameter a vom Typ T, gibt nichts zurück, macht:
 	Das T kopie ist a.
 Und kann so benutzt werden:
